@@ -119,18 +119,21 @@ func cmdCheck(args []string) int {
 	fnsUnder := map[string]bool{}
 	assumptions := map[string]bool{}
 	usedContracts := map[string]bool{}
-	var specFiles []string
+	var specFiles, statedAssumptions []string
 	for _, mod := range propModules[*prop] {
 		w := loadModuleForCheck(mod, *tier, &problems)
+		_ = w
 		if w == nil {
 			continue
 		}
 		specFiles = append(specFiles, w.spec.Files...)
+		statedAssumptions = append(statedAssumptions, w.spec.Assumed...)
 		for _, be := range w.bindErrors(*prop) {
 			problems = append(problems, be)
 		}
 		obls = append(obls, w.callerObligations(*prop)...)
 		obls = append(obls, w.lemmaObligations(*prop)...)
+		obls = append(obls, rawLemmaObligations(*prop)...)
 		for _, fn := range w.scopeFunctions() {
 			if !w.isStandalone(fn) {
 				continue
@@ -281,6 +284,11 @@ func cmdCheck(args []string) int {
 		}
 	}
 	as = append(as, globalAssumptions(*prop)...)
+	for _, a := range statedAssumptions {
+		if strings.Contains(strings.SplitN(a, "]", 2)[0], *prop) {
+			as = append(as, "stated in the contracts: "+a)
+		}
+	}
 	sort.Strings(as)
 	var kfList []string
 	for k := range knownHit {
@@ -526,6 +534,26 @@ func (w *World) lemmaObligations(prop string) []*Obligation {
 			g = sv.V.L[0]
 		}
 		out = append(out, &Obligation{Name: "lemma[" + l.Label + "]", Kind: "contract", Tags: l.Tags, Fn: "lemma", c: e.c, PC: st.pc, Goal: g})
+	}
+	return out
+}
+
+// rawLemmaObligations: hand-written SMT lemma files (contracts/lemmas/*.smt2) that justify axioms used in the VCs;
+// each must be unsat on every run. The first line "; tags: C18 ..." assigns them to properties.
+func rawLemmaObligations(prop string) []*Obligation {
+	files, _ := filepath.Glob(filepath.Join(verifDir, "contracts", "lemmas", "*.smt2"))
+	sort.Strings(files)
+	var out []*Obligation
+	for _, f := range files {
+		b, err := os.ReadFile(f)
+		if err != nil {
+			continue
+		}
+		first := strings.SplitN(string(b), "\n", 2)[0]
+		if !strings.Contains(first, "tags:") || !strings.Contains(first, prop) {
+			continue
+		}
+		out = append(out, &Obligation{Name: "lemma.smt:" + strings.TrimSuffix(filepath.Base(f), ".smt2"), Kind: "contract", Tags: []string{prop}, Fn: "lemma", RawSMT: string(b)})
 	}
 	return out
 }
